@@ -1372,6 +1372,17 @@ Section DelLocal.
   Qed.
 End DelLocal.
 
+Lemma create_container_not_none f g rk ea attrs tv pgs p :
+  (rk = RGroup \/ (rk = RObject /\ (type_id tv = None \/ exists c b, type_id tv = Some (VStr c) /\ class_name_first c object_classes = Some b))) ->
+  create_entity f g rk ea attrs tv pgs p <> Ok None.
+Proof.
+  intros [E|[E H]]; subst rk; unfold create_entity.
+  - destruct (type_id tv); discriminate.
+  - destruct H as [H|[c [b [H1 H2]]]].
+    + rewrite H. discriminate.
+    + rewrite H1, H2. destruct (b || has_key KName attrs); discriminate.
+Qed.
+
 Section DelLocal2.
   Variable s : fspec.
   Hypothesis Hwf : wf s.
@@ -1434,15 +1445,13 @@ Section DelLocal2.
     intros Hk H1 H2. rewrite (P_view s Hwf x f' Htop Hnode t Hin), H1, H2. unfold fa_tail.
     destruct (type_spec s Hwf t Hin) as [ts Ets]. pose proof (type_id_cases ts Ets) as Hc.
     destruct (ent_ok_parts s Hwf t Hin) as [_ [_ [_ [_ [_ [_ [_ Hty]]]]]]]. unfold type_ok in Hty. rewrite Ets in Hty.
-    unfold create_entity, type_id.
-    destruct k eqn:Ek; [| |congruence]; cbn [rkind_of].
-    - destruct (sub f' ea KType) as [[ta' tn']|]; cbn [tv_attrs]; [|discriminate].
-      destruct (lookup KID (n_attrs tn')); discriminate.
-    - destruct (sub f' ea KType) as [[ta' tn']|]; cbn [tv_attrs]; [|discriminate].
-      destruct Hc as [Hc|Hc]; rewrite Hc; [|discriminate].
-      destruct (lookup KID (ts_attrs ts)) as [[n|c|n]|]; try discriminate.
-      destruct (class_name_first c object_classes) as [b|]; [|discriminate].
-      destruct (b || has_key KName (n_attrs en')); discriminate.
+    apply create_container_not_none.
+    destruct k eqn:Ek; [left; reflexivity | right; split; [reflexivity|] | congruence].
+    unfold type_id. destruct (sub f' (ent_addr KObject u) KType) as [[ta' tn']|]; [|left; reflexivity]. cbn [tv_attrs].
+    destruct Hc as [Hc|Hc]; rewrite Hc; [|left; reflexivity].
+    destruct (lookup KID (ts_attrs ts)) as [[n|c|n]|]; try discriminate.
+    destruct (class_name_first c object_classes) as [b|] eqn:Ec; [|discriminate].
+    right. exists c, b. split; [reflexivity | exact Ec].
   Qed.
 
   Lemma local_ok_del : local_ok s f' A t.
@@ -1463,10 +1472,496 @@ Section DelLocal2.
       + apply andb_true_iff in H2. destruct H2 as [E1 E2]. apply addr_eqb_eq in E1. destruct (link_hits_true _ _ E2) as [a0 Ex].
         rewrite Ex in E1 |- *. cbn [item_addr] in E1. subst a0. rewrite (db_flat s Hwf t Hin). apply incl_refl.
       + destruct (ent_ok_parts s Hwf t Hin) as [_ [_ [Hd _]]].
-        destruct k eqn:Ek.
-        * exfalso. revert Ev. rewrite <- Ek. apply container_not_none; [rewrite Ek; discriminate | exact H1 | exact H2].
-        * exfalso. revert Ev. rewrite <- Ek. apply container_not_none; [rewrite Ek; discriminate | exact H1 | exact H2].
-        * destruct (Hd eq_refl) as [Hk _]. rewrite uids_unfold, Hk. simpl. intros v [E|[]]. subst. exact HinA.
+        assert (Hdec : k = KData \/ k <> KData) by (destruct k; [right; discriminate | right; discriminate | left; reflexivity]).
+        destruct Hdec as [Ek|Ek].
+        * destruct (Hd Ek) as [Hk _]. rewrite uids_unfold, Hk. simpl. intros v [E|[]]. subst. exact HinA.
+        * exfalso. revert Ev. apply container_not_none; assumption.
     - left. exists e. split; [reflexivity|]. eapply load_entity_err. exact Ev.
   Qed.
 End DelLocal2.
+
+Section DelLocal3.
+  Variable s : fspec.
+  Hypothesis Hwf : wf s.
+  Variable x : item.
+  Variable f' : h5.
+  Hypothesis Htop : top f' = [].
+  Hypothesis Hnode : forall b, node_at f' b =
+     if addr_eqb (item_addr x) b then option_map (del_in_node x) (layout_at s b) else layout_at s b.
+  Variable t : etree.
+  Hypothesis Hin : In t (subtrees (fs_root s)).
+
+  Local Notation a := (item_addr x).
+  Local Notation k := (et_kind t).
+  Local Notation u := (et_uid t).
+  Local Notation ea := (ent_addr (et_kind t) (et_uid t)).
+  Local Notation A := (described_by s x).
+
+  Lemma dropped_kid c : In c (et_kids t) -> keep_of x t (key_of c) = false -> incl (uids c) A.
+  Proof.
+    intros Hc Hk. unfold keep_of, key_of in Hk. cbn [fst snd] in Hk.
+    pose proof (kid_uids_incl t c Hc) as Hsub.
+    destruct (addr_eqb a [] && link_hits x (flat_key k)) eqn:E1.
+    { (* the flat container of this kind *)
+      apply andb_true_iff in E1. destruct E1 as [E1 E2]. apply addr_eqb_eq in E1. destruct (link_hits_true _ _ E2) as [a0 Ex].
+      rewrite Ex in E1 |- *. cbn [item_addr] in E1. subst a0. unfold described_by. cbn [item_addr]. rewrite kind_of_flat_flat.
+      assert (Hs : incl (uids c) (of_kind_subtrees s k)).
+      { intros v Hv. unfold of_kind_subtrees. apply in_flat_map. exists t. split; [|apply Hsub; exact Hv].
+        apply filter_In. split; [exact Hin | apply ekind_eqb_refl]. }
+      destruct k; [|exact Hs|exact Hs].
+      intros v Hv. apply (uids_in_root s t Hin). apply Hsub. exact Hv. }
+    destruct (addr_eqb a [flat_key k] && link_hits x (KU u)) eqn:E2.
+    { apply andb_true_iff in E2. destruct E2 as [E2 E3]. apply addr_eqb_eq in E2. destruct (link_hits_true _ _ E3) as [a0 Ex].
+      rewrite Ex in E2 |- *. cbn [item_addr] in E2. subst a0. rewrite (db_flat s Hwf t Hin). exact Hsub. }
+    cbn [negb andb] in Hk.
+    destruct (cont_removed x t (et_kind c)) eqn:E3.
+    { (* the child container *)
+      unfold cont_removed in E3. apply andb_true_iff in E3. destruct E3 as [E3 E4]. apply addr_eqb_eq in E3.
+      destruct (link_hits_true _ _ E4) as [a0 Ex]. rewrite (db_ea_shape s Hwf t Hin x E3). rewrite Ex.
+      rewrite kind_of_flat_flat, (dsets_no_flat s Hwf t Hin (et_kind c) (has_kid_not_data s Hwf t Hin c Hc)).
+      assert (Hs : incl (uids c) (flat_map uids (kids_of_kind t (et_kind c)))).
+      { intros v Hv. apply in_flat_map. exists c. split; [apply kid_in_kind; exact Hc | exact Hv]. }
+      destruct (et_kind c); exact Hs. }
+    cbn [negb andb] in Hk.
+    destruct (entry_removed x t (et_kind c) (et_uid c)) eqn:E4; [|discriminate].
+    unfold entry_removed in E4. apply andb_true_iff in E4. destruct E4 as [E4 E5]. apply addr_eqb_eq in E4.
+    destruct (link_hits_true _ _ E5) as [a0 Ex]. rewrite Ex in E4 |- *. cbn [item_addr] in E4.
+    rewrite (db_cont_entry s Hwf t Hin a0 (et_kind c) (et_uid c) E4).
+    intros v Hv. apply in_flat_map. exists c. split; [|exact Hv]. apply filter_In. split; [apply kid_in_kind; exact Hc | apply N.eqb_refl].
+  Qed.
+
+  Lemma list_ok_del : list_ok f' A t.
+  Proof.
+    exists (keep_of x t). split; [apply (P_list2 s Hwf x f' Htop Hnode t Hin) | exact dropped_kid].
+  Qed.
+End DelLocal3.
+
+(* ------------------------------------------------------------------ the root, read through the Root link *)
+Lemma fetch_attributes_root f uu :
+  fetch_attributes G0 f uu None =
+  match sub f (top f) KRoot with None => Ok None | Some (ea, en) => Ok (fa_tail f uu ea en) end.
+Proof.
+  unfold fetch_attributes, fa_tail. simpl. rewrite glookup_ok_absorb by reflexivity. simpl.
+  destruct (sub f (top f) KRoot) as [[ea en]|]; simpl; [|reflexivity].
+  rewrite !glookup_ok_absorb by reflexivity. simpl.
+  destruct (sub f ea KType) as [[ta tn]|]; simpl.
+  - rewrite fetch_type_attributes_G0. simpl.
+    destruct (get_link f ea KPGs); simpl; [rewrite fetch_property_groups_G0|]; reflexivity.
+  - destruct (get_link f ea KPGs); simpl; [rewrite fetch_property_groups_G0|]; reflexivity.
+Qed.
+Lemma load_root_G0 f uu :
+  load_entity G0 f uu None None =
+  match sub f (top f) KRoot with
+  | None => Ok None
+  | Some (ea, en) => match fa_tail f uu ea en with
+                     | Some (ea', attrs, tv, pgs) => create_entity f G0 RRoot ea' attrs tv pgs None
+                     | None => Ok None
+                     end
+  end.
+Proof. unfold load_entity. rewrite fetch_attributes_root. destruct (sub f (top f) KRoot) as [[ea en]|]; reflexivity. Qed.
+
+Section DelRoot.
+  Variable s : fspec.
+  Hypothesis Hwf : wf s.
+  Variable x : item.
+  Variable f' : h5.
+  Hypothesis Htop : top f' = [].
+  Hypothesis Hnode : forall b, node_at f' b =
+     if addr_eqb (item_addr x) b then option_map (del_in_node x) (layout_at s b) else layout_at s b.
+  Hypothesis Hnotroot : is_root_link x = false.
+
+  Local Notation root := (fs_root s).
+  Local Notation a := (item_addr x).
+  Local Notation ru := (et_uid (fs_root s)).
+  Local Notation ra := (ent_addr (et_kind (fs_root s)) (et_uid (fs_root s))).
+  Local Notation rn' := (if addr_eqb (item_addr x) (ent_addr (et_kind (fs_root s)) (et_uid (fs_root s)))
+                         then del_in_node x (ent_node (fs_root s)) else ent_node (fs_root s)).
+  Local Notation A := (described_by s x).
+
+  Lemma root_in : In root (subtrees root).
+  Proof. apply subtrees_self. Qed.
+
+  Lemma sub_root : sub f' [] KRoot = Some (ra, rn').
+  Proof.
+    unfold sub. rewrite (D_getlink s x f' Hnode). cbn [layout_at].
+    assert (E : addr_eqb a [] && link_hits x KRoot = false).
+    { destruct x as [a0 k0|a0 k0]; cbn [link_hits]; [apply andb_false_r|].
+      destruct (addr_eqb (item_addr (ILink a0 k0)) []) eqn:Ea; [|reflexivity]. apply addr_eqb_eq in Ea. cbn [item_addr] in Ea. subst a0.
+      cbn [andb]. destruct k0; try reflexivity. discriminate Hnotroot. }
+    rewrite E. cbn [top_node n_links lookup key_eqb].
+    rewrite (wf_root_kind s Hwf). rewrite Hnode.
+    pose proof (ent_layout s Hwf root root_in) as Hl. rewrite (wf_root_kind s Hwf) in Hl. rewrite Hl.
+    destruct (addr_eqb a (ent_addr KGroup ru)); reflexivity.
+  Qed.
+
+  Lemma root_view :
+    exists r, load_entity G0 f' (Fresh [KRoot; KRoot]) None None = Ok (Some r)
+              /\ (r_uid r = U ru \/ (exists b, r_uid r = Fresh b) /\ incl (uids root) A)
+              /\ (~ In ru A -> r = rec_of s true root None).
+  Proof.
+    rewrite load_root_G0, Htop, sub_root. unfold fa_tail. unfold create_entity.
+    eexists. split; [reflexivity|]. cbn [r_uid]. split.
+    - destruct (uid_en' s Hwf x f' Hnode root root_in) as [Hu|[Hu Hx]]; rewrite Hu.
+      + left. reflexivity.
+      + right. split; [eexists; reflexivity|]. rewrite Hx. rewrite (db_ea_id s Hwf root root_in _ eq_refl). apply incl_refl.
+    - intros Hu.
+      pose proof (frame_top s x f' Hnode root root_in Hu) as H1. pose proof (frame_flat s Hwf x f' Hnode root root_in Hu) as H2.
+      pose proof (frame_ea s Hwf x f' Hnode root root_in Hu) as H3.
+      assert (H4 : addr_eqb a (type_addr (et_kind root) (et_ty root)) = false)
+        by (apply (frame_addr s x root); [apply (db_type s root root_in) | exact Hu]).
+      assert (H5 : addr_eqb a (type_addr (et_kind root) (et_ty root) ++ [KCmap]) = false)
+        by (apply (frame_addr s x root); [apply (db_cmap s root root_in) | exact Hu]).
+      destruct (type_spec s Hwf root root_in) as [ts Ets].
+      assert (E1 : addr_eqb a ra && link_hits x KType = false).
+      { apply (ea_clean_link x root KType H3). intros ck. destruct ck; discriminate. }
+      rewrite (sub_type s Hwf x f' Hnode root root_in ts Ets E1 H4). cbn [type_node n_attrs].
+      rewrite (sub_cmap s x f' Hnode root ts Ets H4 H5), (sub_vmap s x f' Hnode root ts Ets H4).
+      rewrite (en_attrs x root H3).
+      destruct (ent_ok_parts s Hwf root root_in) as [Hid [_ [_ [Hpg _]]]].
+      unfold uid_of_attrs. rewrite Hid.
+      pose proof (dsets_same s Hwf x f' Htop Hnode root root_in H1 H2 H3) as Hds.
+      rewrite (wf_root_kind s Hwf) in Hds. cbn [ekind_of]. rewrite Hds.
+      unfold rec_of. rewrite Ets. cbn [option_map]. unfold tview_of.
+      rewrite (wf_root_kind s Hwf). reflexivity.
+  Qed.
+End DelRoot.
+
+Lemma NoDup_flat_map_in {X Y} (g : X -> list Y) l c : NoDup (flat_map g l) -> In c l -> NoDup (g c).
+Proof.
+  induction l as [|y r IH]; simpl; intros Hnd Hc; [contradiction|].
+  destruct Hc as [Hc|Hc]; [subst; eapply NoDup_app_l; exact Hnd | apply IH; [eapply NoDup_app_r; exact Hnd | exact Hc]].
+Qed.
+
+Lemma find_flat_map_none s kids pu v :
+  ~ In v (flat_map uids kids) -> find_rec (U v) (flat_map (fun c => flat_recs s c pu) kids) = None.
+Proof.
+  induction kids as [|c r IH]; simpl; intros H; [reflexivity|]. rewrite find_rec_app.
+  rewrite (find_flat_recs_none s c pu v) by (intros Hc; apply H; apply in_or_app; left; exact Hc).
+  apply IH. intros Hc. apply H. apply in_or_app. right. exact Hc.
+Qed.
+
+(* ------------------------------------------------------------------ the whole file after one deletion *)
+Section Main.
+  Variable s : fspec.
+  Hypothesis Hwf : wf s.
+  Variable x : item.
+  Hypothesis Hnotroot : is_root_link x = false.
+  Variable fuel : nat.
+  Hypothesis Hfuel : depth (fs_root s) <= fuel.
+
+  Local Notation root := (fs_root s).
+  Local Notation ru := (et_uid (fs_root s)).
+  Local Notation f' := (delete_item (layout s) x).
+  Local Notation A := (described_by s x).
+
+  Lemma Hnode_del : forall b, node_at f' b =
+     if addr_eqb (item_addr x) b then option_map (del_in_node x) (layout_at s b) else layout_at s b.
+  Proof. reflexivity. Qed.
+
+  Lemma scope_closed t c : In t (subtrees root) -> In c (et_kids t) -> In c (subtrees root).
+  Proof. intros Ht Hc. apply (kid_subtree s t Ht c Hc). Qed.
+
+  Lemma kid_loads c p reg : In c (et_kids root) -> (forall v, In v (uids c) -> ~ In (U v) reg) ->
+    sub_ok s A c p reg (load_ent fuel G0 f' reg (key_of c) p).
+  Proof.
+    intros Hc Hreg.
+    apply (core s f' A (fetch_children_fresh f') (subtrees root) scope_closed).
+    - intros t Ht. apply (local_ok_del s Hwf x f' eq_refl Hnode_del t Ht).
+    - intros t Ht. apply (list_ok_del s Hwf x f' eq_refl Hnode_del t Ht).
+    - intros t Ht Ek. destruct (ent_ok_parts s Hwf t Ht) as [_ [_ [Hd _]]]. apply (Hd Ek).
+    - assert (depth c < depth root) by (apply depth_kid; exact Hc). lia.
+    - apply (kid_subtree s root (subtrees_self root) c Hc).
+    - pose proof (wf_nodup s Hwf) as Hnd. rewrite uids_unfold in Hnd. inversion Hnd; subst.
+      eapply NoDup_flat_map_in; eassumption.
+    - exact Hreg.
+  Qed.
+
+  Theorem deletion_outcome :
+    (exists e, load fuel G0 f' = Err e /\ e <> OutOfFuel)
+    \/ (exists t, load fuel G0 f' = Ok t /\ agree_outside (negb (is_proj_attr x)) A t (abs s)).
+  Proof.
+    unfold load. cbn [top delete_item layout].
+    assert (Htn : exists tn, node_at f' [] = Some tn /\ (is_proj_attr x = false -> n_attrs tn = fs_proj s)).
+    { rewrite Hnode_del. cbn [layout_at]. destruct (addr_eqb (item_addr x) []) eqn:Ea; cbn [option_map].
+      - eexists. split; [reflexivity|]. intros Hp. rewrite del_attrs. destruct x as [a0 k0|a0 k0]; [|reflexivity].
+        apply addr_eqb_eq in Ea. cbn [item_addr] in Ea. subst a0. discriminate Hp.
+      - eexists. split; [reflexivity|]. reflexivity. }
+    destruct Htn as [tn [Etn Hproj]]. cbn [node_at delete_item layout] in Etn |- *. rewrite Etn.
+    destruct (root_view s Hwf x f' eq_refl Hnode_del Hnotroot) as [r [Ev [Huid Hsame]]].
+    cbn [node_at delete_item layout top] in Ev. rewrite Ev. cbn [bind].
+    pose proof (wf_nodup s Hwf) as Hnd. rewrite uids_unfold in Hnd. inversion Hnd as [|x0 l0 Hnotin Hndk]; subst.
+    destruct Huid as [Huid|[[b Huid] HA]].
+    - (* the root keeps its identifier *)
+      rewrite Huid.
+      destruct (list_ok_del s Hwf x f' eq_refl Hnode_del root (subtrees_self root)) as [keep [Hl Hdrop]].
+      rewrite (wf_root_kind s Hwf) in Hl. cbn [node_at delete_item layout top] in Hl. rewrite Hl. cbn [bind].
+      pose proof (kids_ok s f' A fuel root keep (U ru) Hdrop (fun c p reg Hc Hr => kid_loads c p reg Hc Hr)
+                          (et_kids root) (incl_refl _) Hndk [U ru]) as K.
+      assert (Hreg : forall v, In v (flat_map uids (et_kids root)) -> ~ In (U v) [U ru]).
+      { intros v Hv [E|[]]. inversion E. subst. contradiction. }
+      specialize (K Hreg). cbn [node_at delete_item layout top] in K.
+      destruct (seq_load _ (filter keep (map key_of (et_kids root))) [U ru]) as [[sub reg']|e].
+      + right. eexists. split; [reflexivity|]. destruct K as [Kf _]. split.
+        * cbn [t_proj abs]. intros Hp. apply Hproj. destruct (is_proj_attr x); [discriminate | reflexivity].
+        * intros v Hv. cbn [t_ents abs find_rec]. rewrite Huid. cbn [r_uid rec_of uid_eqb].
+          destruct (N.eqb ru v) eqn:E.
+          -- apply N.eqb_eq in E. subst v. rewrite (Hsame Hv). reflexivity.
+          -- apply Kf. exact Hv.
+      + left. exists e. split; [reflexivity | exact K].
+    - (* the root got a new identifier: its children are not found *)
+      rewrite Huid. rewrite fetch_children_fresh. cbn [bind seq_load].
+      right. eexists. split; [reflexivity|]. split.
+      + cbn [t_proj abs]. intros Hp. apply Hproj. destruct (is_proj_attr x); [discriminate | reflexivity].
+      + intros v Hv. cbn [t_ents abs find_rec]. rewrite Huid. cbn [uid_eqb r_uid rec_of].
+        assert (Hv' : ~ In v (uids root)) by (intros H; apply Hv; apply HA; exact H).
+        rewrite uids_unfold in Hv'. destruct (N.eqb ru v) eqn:E.
+        * apply N.eqb_eq in E. exfalso. apply Hv'. left. exact E.
+        * symmetry. apply find_flat_map_none. intros H. apply Hv'. right. exact H.
+  Qed.
+End Main.
+
+(* ------------------------------------------------------------------ no view raises => the load does not raise *)
+Section CoreNoErr.
+  Variable s : fspec.
+  Variable f' : h5.
+  Variable A : list N.
+  Variable scope : list etree.
+  Hypothesis scope_kids : forall t c, In t scope -> In c (et_kids t) -> In c scope.
+  Hypothesis H_local : forall t, In t scope -> local_ok s f' A t.
+  Hypothesis H_list : forall t, In t scope -> list_ok f' A t.
+  Hypothesis H_noerr : forall t p e, In t scope -> view f' t p <> Err e.
+
+  Lemma kids_noerr n t (keep : N * ekind -> bool) pu :
+    (forall c p reg, In c (et_kids t) -> exists out, load_ent n G0 f' reg (key_of c) p = Ok out) ->
+    forall cs, incl cs (et_kids t) -> forall reg,
+    exists out, seq_load (fun reg' c' => load_ent n G0 f' reg' c' (Some pu)) (filter keep (map key_of cs)) reg = Ok out.
+  Proof.
+    intros Hk cs. induction cs as [|c r IH]; intros Hin reg.
+    - simpl. eexists. reflexivity.
+    - simpl. assert (Hr : incl r (et_kids t)) by (intros y Hy; apply Hin; right; exact Hy).
+      destruct (keep (key_of c)); [|apply IH; exact Hr]. simpl.
+      destruct (Hk c (Some pu) reg (Hin c (or_introl eq_refl))) as [[r1 reg1] E]. rewrite E.
+      destruct (IH Hr reg1) as [[r2 reg2] E2]. rewrite E2. eexists. reflexivity.
+  Qed.
+
+  Lemma core_noerr : forall n t, depth t <= n -> In t scope -> forall p reg,
+    exists out, load_ent n G0 f' reg (key_of t) p = Ok out.
+  Proof.
+    induction n as [|n IH]; intros t Hd Hs p reg.
+    - destruct t; simpl in Hd; lia.
+    - simpl. destruct (mem_uid (U (et_uid t)) reg); [eexists; reflexivity|].
+      change (load_entity G0 f' (U (et_uid t)) (Some (et_kind t)) p) with (view f' t p).
+      assert (Hkids : forall c p0 reg0, In c (et_kids t) -> exists out, load_ent n G0 f' reg0 (key_of c) p0 = Ok out).
+      { intros c p0 reg0 Hc. apply IH; [|eapply scope_kids; eassumption].
+        assert (depth c < depth t) by (apply depth_kid; exact Hc). lia. }
+      destruct (H_list t Hs) as [keep [Hl _]].
+      assert (Hsame : forall r, r_uid r = U (et_uid t) \/ (exists b, r_uid r = Fresh b) ->
+                exists out, (if is_container (et_kind t)
+                             then do kids <- fetch_children G0 f' (r_uid r) (et_kind t);
+                                  match seq_load (fun reg' c' => load_ent n G0 f' reg' c' (Some (r_uid r))) kids (r_uid r :: reg) with
+                                  | Err e => Err e
+                                  | Ok (sub, reg') => Ok (r :: sub, reg')
+                                  end
+                             else Ok ([r], r_uid r :: reg)) = Ok out).
+      { intros r Hr. destruct (is_container (et_kind t)); [|eexists; reflexivity].
+        destruct Hr as [Hr|[b Hr]]; rewrite Hr.
+        - rewrite Hl. simpl.
+          destruct (kids_noerr n t keep (U (et_uid t)) Hkids (et_kids t) (incl_refl _) (U (et_uid t) :: reg)) as [[sub reg'] E].
+          rewrite E. eexists. reflexivity.
+        - rewrite fetch_children_fresh. simpl. eexists. reflexivity. }
+      destruct (H_local t Hs p) as [Hv|[[e [Hv He]]|[[Hv HA]|[[r [Hv [Er HinA]]]|[r [b [Hv [Er HA]]]]]]]]; rewrite Hv; simpl.
+      + apply (Hsame (rec_of s false t p)). left. reflexivity.
+      + exfalso. exact (H_noerr t p e Hs Hv).
+      + eexists. reflexivity.
+      + apply (Hsame r). left. exact Er.
+      + apply (Hsame r). right. exists b. exact Er.
+  Qed.
+End CoreNoErr.
+
+(* ------------------------------------------------------------------ optional items: no view raises *)
+Lemma create_entity_err_cases f g rk ea attrs tv pgs p e :
+  create_entity f g rk ea attrs tv pgs p = Err e ->
+  (rk = RGroup /\ type_id tv = None)
+  \/ (rk = RObject /\ (type_id tv = None
+                       \/ exists c, type_id tv = Some (VStr c) /\ class_name_first c object_classes = Some false /\ has_key KName attrs = false)).
+Proof.
+  unfold create_entity. destruct rk; try discriminate.
+  - destruct (type_id tv); [discriminate|]. intros _. left. split; reflexivity.
+  - intros H. right. split; [reflexivity|]. destruct (type_id tv) as [[n|c|n]|]; try discriminate; [|left; reflexivity].
+    destruct (class_name_first c object_classes) as [b|] eqn:Ec; [|discriminate].
+    destruct b; simpl in H; [discriminate|]. destruct (has_key KName attrs) eqn:En; [discriminate|].
+    right. exists c. split; [reflexivity|]. split; [exact Ec | reflexivity].
+  - destruct tv as [v|]; [|discriminate]. destruct (has_key KPrim (tv_attrs v)); discriminate.
+Qed.
+
+Lemma rkind_of_group k0 : rkind_of k0 = RGroup -> k0 = KGroup.
+Proof. destruct k0; simpl; intros H; try discriminate; reflexivity. Qed.
+Lemma rkind_of_object k0 : rkind_of k0 = RObject -> k0 = KObject.
+Proof. destruct k0; simpl; intros H; try discriminate; reflexivity. Qed.
+
+Section OptionalShapes.
+  Variable s : fspec.
+  Hypothesis Hwf : wf s.
+  Variable t : etree.
+  Hypothesis Hin : In t (subtrees (fs_root s)).
+  Local Notation k := (et_kind t).
+  Local Notation u := (et_uid t).
+  Local Notation ea := (ent_addr (et_kind t) (et_uid t)).
+  Local Notation ta := (type_addr (et_kind t) (et_ty t)).
+
+  Lemma opt_top_flat a0 : a0 = [] -> optional s (ILink a0 (flat_key k)) = false.
+  Proof. intros ->. unfold optional. cbn [item_addr]. destruct k; reflexivity. Qed.
+  Lemma opt_ea_type a0 : a0 = ea -> optional s (ILink a0 KType) = false.
+  Proof.
+    intros ->. unfold optional. cbn [item_addr]. pose proof (ent_at_self s Hwf t Hin) as He.
+    unfold ent_addr. destruct k eqn:Ek; cbn [flat_key] in *; rewrite He; reflexivity.
+  Qed.
+  Lemma opt_ea_name a0 : a0 = ea -> optional s (IAttr a0 KName) = false.
+  Proof.
+    intros ->. unfold optional. cbn [item_addr]. pose proof (ent_at_self s Hwf t Hin) as He.
+    unfold ent_addr. destruct k eqn:Ek; cbn [flat_key] in *; rewrite He; reflexivity.
+  Qed.
+  Lemma opt_ta_id a0 : a0 = ta -> optional s (IAttr a0 KID) = false.
+  Proof. intros ->. unfold optional. cbn [item_addr]. unfold type_addr. reflexivity. Qed.
+End OptionalShapes.
+
+Section DelNoErr.
+  Variable s : fspec.
+  Hypothesis Hwf : wf s.
+  Variable x : item.
+  Variable f' : h5.
+  Hypothesis Htop : top f' = [].
+  Hypothesis Hnode : forall b, node_at f' b =
+     if addr_eqb (item_addr x) b then option_map (del_in_node x) (layout_at s b) else layout_at s b.
+  Hypothesis Hopt : optional s x = true.
+  Variable t : etree.
+  Hypothesis Hin : In t (subtrees (fs_root s)).
+
+  Local Notation a := (item_addr x).
+  Local Notation k := (et_kind t).
+  Local Notation u := (et_uid t).
+  Local Notation ea := (ent_addr (et_kind t) (et_uid t)).
+  Local Notation ta := (type_addr (et_kind t) (et_ty t)).
+  Local Notation en' := (if addr_eqb (item_addr x) (ent_addr (et_kind t) (et_uid t)) then del_in_node x (ent_node t) else ent_node t).
+  Local Notation tv' := (match sub f' (ent_addr (et_kind t) (et_uid t)) KType with
+                         | Some (ta0, tn) => Some {| tv_attrs := n_attrs tn;
+                                                     tv_cmap := option_map (fun p : addr * node => (n_attrs (snd p), n_data (snd p))) (sub f' ta0 KCmap);
+                                                     tv_vmap := option_map (fun p : addr * node => n_data (snd p)) (sub f' ta0 KVmap) |}
+                         | None => None
+                         end).
+
+  Lemma type_id_tv' ts : lookupN (et_ty t) (fs_types s k) = Some ts ->
+    type_id tv' = lookup KID (ts_attrs ts) \/ type_id tv' = None.
+  Proof.
+    intros Ets. pose proof (type_id_cases s Hwf x f' Hnode t Hin ts Ets) as Hc. unfold type_id.
+    destruct (sub f' ea KType) as [[ta0 tn]|]; [|right; reflexivity]. cbn [tv_attrs]. exact Hc.
+  Qed.
+
+  Lemma type_id_none_src ts v0 : lookupN (et_ty t) (fs_types s k) = Some ts -> lookup KID (ts_attrs ts) = Some v0 ->
+    type_id tv' = None -> optional s x = false.
+  Proof.
+    intros Ets Hid. unfold type_id, sub. rewrite (D_getlink s x f' Hnode), (ent_layout s Hwf t Hin).
+    destruct (addr_eqb a ea && link_hits x KType) eqn:E1.
+    - intros _. apply andb_true_iff in E1. destruct E1 as [E1 E2]. apply addr_eqb_eq in E1. destruct (link_hits_true _ _ E2) as [a0 Ex].
+      rewrite Ex in E1 |- *. cbn [item_addr] in E1. apply (opt_ea_type s Hwf t Hin a0 E1).
+    - unfold ent_node. cbn [n_links lookup key_eqb]. rewrite Hnode, (type_layout s t ts Ets).
+      destruct (addr_eqb a ta) eqn:E2; cbn [option_map tv_attrs type_node n_attrs].
+      + rewrite del_attrs. destruct x as [a0 k0|a0 k0]; cbn [type_node n_attrs]; [|rewrite Hid; discriminate].
+        destruct (key_eqb k0 KID) eqn:Ek.
+        * intros _. apply key_eqb_eq in Ek. subst k0. apply addr_eqb_eq in E2. cbn [item_addr] in E2. apply (opt_ta_id s t a0 E2).
+        * rewrite lookup_remove_other by (apply key_eqb_neq; exact Ek). rewrite Hid. discriminate.
+      + rewrite Hid. discriminate.
+  Qed.
+
+  Lemma view_noerr p e : view f' t p <> Err e.
+  Proof.
+    unfold view. intros Ev. rewrite (P_view s Hwf x f' Htop Hnode t Hin) in Ev.
+    destruct (addr_eqb a [] && link_hits x (flat_key k)) eqn:H1.
+    { apply andb_true_iff in H1. destruct H1 as [E1 E2]. apply addr_eqb_eq in E1. destruct (link_hits_true _ _ E2) as [a0 Ex].
+      rewrite Ex in E1, Hopt. cbn [item_addr] in E1. rewrite (opt_top_flat s t a0 E1) in Hopt. discriminate. }
+    destruct (addr_eqb a [flat_key k] && link_hits x (KU u)); [discriminate|].
+    unfold fa_tail in Ev. apply create_entity_err_cases in Ev.
+    destruct (type_spec s Hwf t Hin) as [ts Ets].
+    destruct (ent_ok_parts s Hwf t Hin) as [_ [_ [_ [_ [_ [_ [_ Hty]]]]]]]. unfold type_ok in Hty. rewrite Ets in Hty.
+    destruct Ev as [[Erk Hn]|[Erk Hcase]].
+    - apply rkind_of_group in Erk. rewrite Erk in Hty. unfold has_key in Hty.
+      destruct (lookup KID (ts_attrs ts)) as [v0|] eqn:Hid; [|discriminate].
+      rewrite (type_id_none_src ts v0 Ets Hid Hn) in Hopt. discriminate.
+    - apply rkind_of_object in Erk. rewrite Erk in Hty.
+      destruct (lookup KID (ts_attrs ts)) as [[n|c0|n]|] eqn:Hid; try discriminate.
+      destruct Hcase as [Hn|[c [Hc [Hcls Hname]]]].
+      + rewrite (type_id_none_src ts (VStr c0) Ets Hid Hn) in Hopt. discriminate.
+      + destruct (type_id_tv' ts Ets) as [Hsame|Hnone]; [|rewrite Hnone in Hc; discriminate].
+        rewrite Hsame, Hid in Hc. inversion Hc; subst c0. rewrite Hcls in Hty. cbn [orb] in Hty.
+        (* the Name attribute was there and is gone *)
+        destruct (addr_eqb a ea) eqn:E3.
+        * rewrite del_attrs in Hname. destruct x as [a0 k0|a0 k0].
+          -- destruct (key_eqb k0 KName) eqn:Ekn.
+             ++ apply key_eqb_eq in Ekn. subst k0. apply addr_eqb_eq in E3. cbn [item_addr] in E3.
+                rewrite (opt_ea_name s Hwf t Hin a0 E3) in Hopt. discriminate.
+             ++ unfold has_key in Hname, Hty. cbn [ent_node n_attrs] in Hname.
+                rewrite lookup_remove_other in Hname by (apply key_eqb_neq; exact Ekn).
+                destruct (lookup KName (et_attrs t)); discriminate.
+          -- cbn [ent_node n_attrs] in Hname. rewrite Hname in Hty. discriminate.
+        * cbn [ent_node n_attrs] in Hname. rewrite Hname in Hty. discriminate.
+  Qed.
+End DelNoErr.
+
+Section MainOptional.
+  Variable s : fspec.
+  Hypothesis Hwf : wf s.
+  Variable x : item.
+  Hypothesis Hnotroot : is_root_link x = false.
+  Hypothesis Hopt : optional s x = true.
+  Variable fuel : nat.
+  Hypothesis Hfuel : depth (fs_root s) <= fuel.
+
+  Local Notation root := (fs_root s).
+  Local Notation ru := (et_uid (fs_root s)).
+  Local Notation f' := (delete_item (layout s) x).
+  Local Notation A := (described_by s x).
+
+  Lemma load_ok_optional : exists t, load fuel G0 f' = Ok t.
+  Proof.
+    unfold load. cbn [top delete_item layout].
+    assert (Htn : exists tn, node_at f' [] = Some tn).
+    { rewrite (Hnode_del s x). cbn [layout_at]. destruct (addr_eqb (item_addr x) []); eexists; reflexivity. }
+    destruct Htn as [tn Etn]. cbn [node_at delete_item layout] in Etn |- *. rewrite Etn.
+    destruct (root_view s Hwf x f' eq_refl (Hnode_del s x) Hnotroot) as [r [Ev [Huid _]]].
+    cbn [node_at delete_item layout top] in Ev. rewrite Ev. cbn [bind].
+    assert (Hkids : forall c p reg, In c (et_kids root) -> exists out, load_ent fuel G0 f' reg (key_of c) p = Ok out).
+    { intros c p reg Hc.
+      apply (core_noerr s f' A (subtrees root) (scope_closed s Hwf)).
+      - intros t Ht. apply (local_ok_del s Hwf x f' eq_refl (Hnode_del s x) t Ht).
+      - intros t Ht. apply (list_ok_del s Hwf x f' eq_refl (Hnode_del s x) t Ht).
+      - intros t p0 e Ht. apply (view_noerr s Hwf x f' eq_refl (Hnode_del s x) Hopt t Ht).
+      - assert (depth c < depth root) by (apply depth_kid; exact Hc). lia.
+      - apply (kid_subtree s root (subtrees_self root) c Hc). }
+    destruct Huid as [Huid|[[b Huid] _]]; rewrite Huid.
+    - destruct (list_ok_del s Hwf x f' eq_refl (Hnode_del s x) root (subtrees_self root)) as [keep [Hl _]].
+      rewrite (wf_root_kind s Hwf) in Hl. cbn [node_at delete_item layout top] in Hl. rewrite Hl. cbn [bind].
+      destruct (kids_noerr f' fuel root keep (U ru) Hkids (et_kids root) (incl_refl _) [U ru]) as [[sub reg'] E].
+      cbn [node_at delete_item layout top] in E. rewrite E. eexists. reflexivity.
+    - rewrite fetch_children_fresh. cbn [bind seq_load]. eexists. reflexivity.
+  Qed.
+
+  Theorem optional_outcome :
+    exists t, load fuel G0 f' = Ok t /\ agree_outside (negb (is_proj_attr x)) A t (abs s).
+  Proof.
+    destruct load_ok_optional as [t0 E0].
+    destruct (deletion_outcome s Hwf x Hnotroot fuel Hfuel) as [[e [E _]]|[t [E H]]].
+    - rewrite E in E0. discriminate.
+    - exists t. split; assumption.
+  Qed.
+End MainOptional.
+
+(* ------------------------------------------------------------------ from the extracted guards to the ones the proofs use *)
+Lemma gkind_eqb_eq a b : gkind_eqb a b = true -> a = b.
+Proof. destruct a, b; simpl; intros H; try discriminate; reflexivity. Qed.
+Lemma guards_ok_eq g : guards_okb g = true -> g = G0.
+Proof.
+  destruct g. unfold guards_okb, G0. simpl. intros H.
+  repeat (apply andb_true_iff in H; destruct H as [H ?]).
+  repeat match goal with H0 : gkind_eqb _ _ = true |- _ => apply gkind_eqb_eq in H0 end.
+  subst. reflexivity.
+Qed.
